@@ -71,6 +71,9 @@ func (fs *FS) newDir(name string, perm hackpadfs.FileMode) *file {
 func (fs *FS) MkdirAll(path string, perm hackpadfs.FileMode) error {
 	missingDirs, err := fs.findMissingDirs(path)
 	if err != nil {
+		if _, ok := err.(*hackpadfs.PathError); !ok {
+			err = fs.wrapperErr("mkdirall", path, err)
+		}
 		return err
 	}
 	for i := len(missingDirs) - 1; i >= 0; i-- { // missingDirs are in reverse order
@@ -258,27 +261,50 @@ func (fs *FS) Remove(name string) error {
 	if file.Mode().IsDir() {
 		dirNames, err := file.ReadDirNames()
 		if err != nil {
-			return err
+			return fs.wrapperErr("remove", name, err)
 		}
 		if len(dirNames) > 0 {
 			return &hackpadfs.PathError{Op: "remove", Path: name, Err: hackpadfs.ErrNotEmpty}
 		}
 	}
-	return fs.setFile(name, nil)
+	return fs.wrapperErr("remove", name, fs.setFile(name, nil))
 }
 
 // Rename implements hackpadfs.RenameFS
 func (fs *FS) Rename(oldname, newname string) error {
+	err := fs.rename(oldname, newname)
+	if err == nil {
+		return nil
+	}
+	if linkErr, ok := err.(*hackpadfs.LinkError); ok && linkErr.Old == oldname && linkErr.New == newname {
+		return err
+	}
+	return &hackpadfs.LinkError{Op: "rename", Old: oldname, New: newname, Err: unwrapPathErr(err)}
+}
+
+// unwrapPathErr returns the error inside a PathError or LinkError, so it can be wrapped with the caller's paths instead.
+func unwrapPathErr(err error) error {
+	switch err := err.(type) {
+	case *hackpadfs.PathError:
+		return err.Err
+	case *hackpadfs.LinkError:
+		return err.Err
+	default:
+		return err
+	}
+}
+
+func (fs *FS) rename(oldname, newname string) error {
 	oldFile, err := fs.getFile(oldname)
 	if err != nil {
-		return &hackpadfs.LinkError{Op: "rename", Old: oldname, New: newname, Err: hackpadfs.ErrNotExist}
+		return err
 	}
 	oldInfo, err := oldFile.Stat()
 	if err != nil {
 		return err
 	}
 	if err := fs.checkRenameDestination(oldname, newname, oldInfo); err != nil {
-		return &hackpadfs.LinkError{Op: "rename", Old: oldname, New: newname, Err: err}
+		return err
 	}
 	if !oldInfo.IsDir() {
 		if oldname == newname {
@@ -317,7 +343,7 @@ func (fs *FS) Rename(oldname, newname string) error {
 		return err
 	}
 	for _, name := range files {
-		err := fs.Rename(path.Join(oldname, name), path.Join(newname, name))
+		err := fs.rename(path.Join(oldname, name), path.Join(newname, name))
 		if err != nil {
 			// TODO don't leave destination in corrupted state (missing file records for dir names)
 			return err
@@ -379,7 +405,7 @@ func (fs *FS) Chmod(name string, mode hackpadfs.FileMode) error {
 
 	newMode := (file.Mode() & ^chmodBits) | (mode & chmodBits)
 	file.modeOverride = &newMode
-	return file.save()
+	return fs.wrapperErr("chmod", name, file.save())
 }
 
 // Chtimes implements hackpadfs.ChtimesFS
@@ -389,5 +415,5 @@ func (fs *FS) Chtimes(name string, atime time.Time, mtime time.Time) error {
 		return fs.wrapperErr("chtimes", name, err)
 	}
 	file.modTimeOverride = mtime
-	return file.save()
+	return fs.wrapperErr("chtimes", name, file.save())
 }
